@@ -26,7 +26,7 @@ def run(pid, mod, tier):
             open(f, 'w').write(s.replace(old, new))
             env = dict(os.environ, VF_SRC=os.path.join(root, 'src'), PYTHONPATH=os.path.join(root, 'src') + ':/verif',
                        VF_EVIDENCE_DIR=os.path.join(root, 'evidence'), VF_REPLAY_DIR=os.path.join(root, 'replays'))
-            p = subprocess.run([sys.executable, '-m', 'vf.cli', pid, '--tier', tier], capture_output=True, text=True, env=env)
+            p = subprocess.run([sys.executable, '-m', 'vf.cli', pid, '--tier', tier], capture_output=True, text=True, env=env, timeout=3000)
             viol = [l for l in p.stdout.splitlines() if l.startswith('VIOLATION') or l.startswith('  signature=')]
             if p.returncode == 1 and viol:
                 print("SELFTEST %s/%s: detected :: %s" % (pid, name, ' '.join(viol[:2])[:300]))
